@@ -2,6 +2,7 @@ package jd
 
 import (
 	"encoding/json"
+	"sort"
 
 	"gopkg.in/yaml.v2"
 )
@@ -15,9 +16,38 @@ func renderJson(i interface{}) string {
 }
 
 func renderYaml(i interface{}) string {
-	s, err := yaml.Marshal(i)
+	s, err := yaml.Marshal(yamlOrdered(i))
 	if err != nil {
 		panic(err)
 	}
 	return string(s)
+}
+
+// yamlOrdered replaces every map by a yaml.MapSlice with the keys in
+// sorted order. yaml.Marshal orders the keys of a Go map with a "natural"
+// comparison that mixes numeric and lexical rules and is not transitive
+// ("9" before "100" before "1e+06" before "9"), so the order it produces
+// depends on Go's map iteration order and the same document renders
+// differently from call to call.
+func yamlOrdered(i interface{}) interface{} {
+	switch t := i.(type) {
+	case map[string]interface{}:
+		keys := make([]string, 0, len(t))
+		for k := range t {
+			keys = append(keys, k)
+		}
+		sort.Strings(keys)
+		ms := make(yaml.MapSlice, 0, len(keys))
+		for _, k := range keys {
+			ms = append(ms, yaml.MapItem{Key: k, Value: yamlOrdered(t[k])})
+		}
+		return ms
+	case []interface{}:
+		out := make([]interface{}, len(t))
+		for j, v := range t {
+			out[j] = yamlOrdered(v)
+		}
+		return out
+	}
+	return i
 }
